@@ -109,13 +109,23 @@ def check_learner(case):
             last = None
             nset += 1
             continue
-        _, i, use_w = op
+        i, use_w = op[1], op[2]
+        via_ft = len(op) > 3 and op[3] == "fit_transform"
         X, y, sw = datasets[i]
         kw = dict(sample_weight=sw) if (use_w and sw is not None and not hasattr(w.model, "transform")) else {}
         X0, y0 = X.copy(), y.copy()
-        r = w.fit(X, y, **kw)
+        if via_ft:
+            # trained through fit_transform, as a Pipeline trains every step but the last: same training, and the array it returns is
+            # transform(X) of the trained wrapper
+            ft_out = w.fit_transform(X, y, **kw)
+            r = w
+            facts["via"] = "fit_transform"
+        else:
+            r = w.fit(X, y, **kw)
         nfit += 1
         require(r is w, "learner:fit-not-self", "", facts)
+        if via_ft:
+            require(np.array_equal(np.asarray(ft_out), np.asarray(w.transform(X)), equal_nan=True), "learner:fit_transform-is-not-transform-after-fit", "", facts)
         require(np.array_equal(X, X0) and np.array_equal(y, y0), "learner:fit-writes-input", "", facts)
         ref = clone(R.build(cur_spec))
         ref.fit(X, y, **kw)
@@ -166,16 +176,16 @@ def _learner_cases(draw, tier="quick"):
         alt_methods = ["predict", "predict_proba"]
     else:
         alt_methods = ["transform"]
-    hist = [["fit", draw(st.integers(0, 1)), draw(st.booleans())]]
+    hist = [["fit", draw(st.integers(0, 1)), draw(st.booleans()), draw(st.sampled_from(["fit", "fit", "fit_transform"]))]]
     for _ in range(draw(st.integers(0, 3))):
         k = draw(st.sampled_from(["fit", "fit", "set_method", "set_model"]))
         if k == "fit":
-            hist.append(["fit", draw(st.integers(0, 1)), draw(st.booleans())])
+            hist.append(["fit", draw(st.integers(0, 1)), draw(st.booleans()), draw(st.sampled_from(["fit", "fit", "fit_transform"]))])
         elif k == "set_method":
             hist.append(["set_method", draw(st.sampled_from(alt_methods))])
         else:
             hist.append(["set_model", _models_for(kind, draw) if kind != "clf" else R.s_classifier(draw)])
-            hist.append(["fit", draw(st.integers(0, 1)), draw(st.booleans())])
+            hist.append(["fit", draw(st.integers(0, 1)), draw(st.booleans()), draw(st.sampled_from(["fit", "fit", "fit_transform"]))])
     if kind == "clf" and method == "decision_function" and any(h[0] == "set_model" for h in hist):
         method = "predict_proba"       # a replacement model may have no decision_function (model and method are interdependent)
     return dict(model=model, method=method, datasets=datasets, history=hist, Q=[])
@@ -202,7 +212,12 @@ def check_stacking(case):
             for zi in case["zero_w"]:
                 sw_[zi % len(sw_)] = 0.0          # exact zeros are legal weights: every member still receives all rows
             kw = dict(sample_weight=sw_)
-        r = st_.fit(X, y, **kw)
+        if case.get("via_fit_transform"):
+            ft_out = st_.fit_transform(X, y, **kw)
+            r = st_
+            require(np.array_equal(np.asarray(ft_out), np.asarray(st_.transform(X)), equal_nan=True), "stacking:fit_transform-is-not-transform-after-fit", "", facts)
+        else:
+            r = st_.fit(X, y, **kw)
         require(r is st_, "stacking:fit-not-self", "", facts)
         Z = np.vstack([X[:3], X[::4]])
         out = np.asarray(st_.transform(Z))
@@ -243,7 +258,8 @@ def _stacking_cases(draw, tier="quick"):
     datasets = [R.d_reg(draw), R.d_reg(draw)] if task == "reg" else [R.d_clf(draw), R.d_clf(draw)]
     return dict(members=members, method=draw(st.sampled_from([None, "predict"])), datasets=datasets, use_weights=draw(st.booleans()) and task == "reg",
                 history=[draw(st.integers(0, 1)) for _ in range(draw(st.integers(1, 3)))], task=task,
-                zero_w=draw(st.lists(st.integers(0, 30), max_size=3)) if draw(st.integers(0, 2)) == 0 else [])
+                zero_w=draw(st.lists(st.integers(0, 30), max_size=3)) if draw(st.integers(0, 2)) == 0 else [],
+                via_fit_transform=draw(st.integers(0, 2)) == 0)
 
 
 # ------------------------------------------------------------------------------- transfer
